@@ -95,7 +95,7 @@ typedef struct { uintptr_t key; uint8_t first; uint8_t flags; } shadow_t; /* fla
 
 typedef struct { void *addr; int owner; int depth; } simlock;
 
-typedef struct { char *p; size_t sz; size_t off; int state; int owner; int region; } alloc_t; /* state 1 live 2 freed */
+typedef struct { char *p; size_t sz; size_t off; int state; int owner; int region; unsigned char red; } alloc_t; /* state 1 live 2 freed */
 
 static struct {
     int inited;
@@ -248,7 +248,7 @@ int simomp_heap_check(long *leaks) {
         alloc_t *a = &S.allocs[i];
         unsigned char *p = (unsigned char *)a->p;
         for (int k = 0; k < REDZONE; k++) {
-            if (p[-1 - k] != 0xCB || p[a->sz + k] != 0xCB) { r |= 1; break; }
+            if (p[-1 - k] != a->red || p[a->sz + k] != a->red) { r |= 1; break; }
         }
         if (a->state == 1) live++;
     }
@@ -480,12 +480,20 @@ void *__real_realloc(void *, size_t);
 
 static int in_arena(void *p) { return S.arena && (char *)p >= S.arena && (char *)p < S.arena + ARENA_SZ; }
 
+/* junk bytes: fresh blocks, red zones, freed blocks.  The serial twin and the parallel run use DIFFERENT variants, so
+   that a result which depends on memory the code does not own (uninitialised, in front of or behind a block, freed)
+   differs between the two and is reported, deterministically, instead of going unnoticed because both saw the same junk. */
+static unsigned char J_fill = 0xA5, J_red = 0xCB, J_freed = 0xDD;
+void simomp_set_junk(int variant) {
+    if (variant) { J_fill = 0x5A; J_red = 0x34; J_freed = 0x22; } else { J_fill = 0xA5; J_red = 0xCB; J_freed = 0xDD; }
+}
+
 static void *arena_alloc(size_t sz, int fill) {
     size_t need = REDZONE + ((sz + 15) & ~(size_t)15) + REDZONE;
     if (S.arena_off + need + 16 > ARENA_SZ) die("arena exhausted");
     char *base = S.arena + S.arena_off;
     S.arena_off += need;
-    memset(base, 0xCB, need);
+    memset(base, J_red, need);
     char *p = base + REDZONE;
     memset(p, fill, sz);
     if (S.nallocs == S.capallocs) {
@@ -494,7 +502,7 @@ static void *arena_alloc(size_t sz, int fill) {
         if (!S.allocs) die("oom");
     }
     alloc_t *a = &S.allocs[S.nallocs++];
-    a->p = p; a->sz = sz; a->off = (size_t)(p - S.arena); a->state = 1; a->owner = S.cur; a->region = S.region_count;
+    a->p = p; a->sz = sz; a->off = (size_t)(p - S.arena); a->state = 1; a->owner = S.cur; a->region = S.region_count; a->red = J_red;
     S.st.allocs++;
     return p;
 }
@@ -507,7 +515,7 @@ static alloc_t *arena_find(void *p) {
 void *__wrap_malloc(size_t sz) {
     if ((!S.active && !S.counting) || S.in_rt) return __real_malloc(sz);
     S.in_rt = 1;
-    void *p = arena_alloc(sz, 0xA5);
+    void *p = arena_alloc(sz, J_fill);
     S.in_rt = 0;
     sim_event(3, NULL);
     return p;
@@ -527,7 +535,7 @@ void __wrap_free(void *p) {
     if (!a) { S.st.bad_free++; return; }
     if (a->state == 2) { S.st.double_free++; return; }
     a->state = 2;
-    memset(a->p, 0xDD, a->sz);
+    memset(a->p, J_freed, a->sz);
     S.st.frees++;
     if (S.active && !S.in_rt) sim_event(3, NULL);
 }
@@ -541,7 +549,7 @@ void *__wrap_realloc(void *p, size_t sz) {
     alloc_t *a = arena_find(p);
     size_t old = a ? a->sz : 0;
     int save = S.in_rt; S.in_rt = 1;
-    void *q = arena_alloc(sz, 0xA5);
+    void *q = arena_alloc(sz, J_fill);
     memcpy(q, p, old < sz ? old : sz);
     S.in_rt = save;
     __wrap_free(p);
